@@ -25,7 +25,7 @@ func TestRegress(t *testing.T) { harness.RunRegress(t) }
 
 // corruption of a valid RTU reply
 type corruption struct {
-	Kind string   `json:"kind"` // flip | subst | trunc | extend | multi
+	Kind string   `json:"kind"` // flip | subst | trunc | extend | multi | swap
 	Pos  int      `json:"pos,omitempty"`
 	Bit  int      `json:"bit,omitempty"`
 	Val  uint8    `json:"val,omitempty"`
@@ -72,6 +72,11 @@ func corrupt(reply []byte, k corruption) []byte {
 		}
 	case "extend":
 		out = append(out, k.Data...)
+	case "swap":
+		// exchange two adjacent bytes (Pos, Pos+1); Pos = len-2 exchanges the two CRC bytes
+		if k.Pos+1 < len(out) {
+			out[k.Pos], out[k.Pos+1] = out[k.Pos+1], out[k.Pos]
+		}
 	case "multi":
 		s := k.Seed
 		n := 2 + int(harness.SplitMix64(&s)%4)
@@ -182,7 +187,12 @@ func genCRC(t *rapid.T, kinds []string) crcCase {
 		panic(err)
 	}
 	L := len(reply)
-	switch rapid.IntRange(0, 5).Draw(t, "corr") {
+	switch rapid.IntRange(0, 6).Draw(t, "corr") {
+	case 6:
+		c.Corr = corruption{Kind: "swap", Pos: L - 2}
+		if rapid.Bool().Draw(t, "swap_any") {
+			c.Corr.Pos = rapid.IntRange(0, L-2).Draw(t, "swap_pos")
+		}
 	case 0, 1:
 		c.Corr = corruption{Kind: "flip", Pos: rapid.IntRange(0, L-1).Draw(t, "pos"), Bit: rapid.IntRange(0, 7).Draw(t, "bit")}
 		if rapid.Bool().Draw(t, "hotpos") {
@@ -315,6 +325,35 @@ func TestBitFlipSweep(t *testing.T) {
 							return
 						}
 					}
+				}
+			}
+		}
+	}
+	// every adjacent byte swap (incl. the two CRC bytes) of the same replies
+	for _, fc := range spec.Functions {
+		for _, exc := range []uint8{0, 2} {
+			r := spec.Req{FC: fc, Unit: 9, Addr: 50, Qty: 3, Value: 0xFF00, WAddr: 1, WQty: 1, Payload: []byte{0, 7}, ByteCount: 2}
+			switch fc {
+			case 15:
+				r.Qty, r.Payload, r.ByteCount = 3, []byte{5}, 1
+			case 16:
+				r.Qty, r.Payload, r.ByteCount = 1, []byte{0, 7}, 2
+			}
+			c := crcCase{Kind: cli.RTUNet, Req: r, DevSeed: uint64(fc) + harness.Seed(), ExcCode: exc}
+			reply, err := validReply(c)
+			if err != nil {
+				t.Fatal(err)
+			}
+			for pos := 0; pos+1 < len(reply); pos++ {
+				idx++
+				if !harness.Mine(idx) {
+					continue
+				}
+				cc := c
+				cc.Corr = corruption{Kind: "swap", Pos: pos}
+				n++
+				if !chkCRC.EvalFast(t, cc) {
+					return
 				}
 			}
 		}
